@@ -268,7 +268,85 @@ def run_prog(W, cfg):
             W.ob_ok('program follows the documented machine')
 
 
+# ------------------------------------------------------------------ operands that come from another interpreter
+def cfg_pickled(tier, seed):
+    return [{'what': 'pickled-by-another-interpreter'}], 1, True
+
+
+_CHILD = r'''
+import sys, pickle
+sys.path.insert(0, sys.argv[1])
+import numpy as np
+import lentil
+amp = np.ones((2, 2))
+objs = {}
+for p in ('none', 'pupil', 'image', 'tilt', 'transform'):
+    objs['plane:' + p] = lentil.Plane(amplitude=amp, ptype=p)
+    if p in ('none', 'pupil', 'image'):
+        objs['wave:' + p] = lentil.Wavefront(650e-9, pixelscale=1e-3, focal_length=1.0, ptype=p) * lentil.Plane(amplitude=amp, ptype=p)
+objs['class:Pupil'] = lentil.Pupil(amplitude=amp, pixelscale=1e-3, focal_length=1.0)
+objs['class:Image'] = lentil.Image()
+objs['class:Tilt'] = lentil.Tilt(x=1e-6, y=0)
+sys.stdout.buffer.write(pickle.dumps(objs))
+'''
+
+
+def run_pickled(W, cfg):
+    """Planes and wavefronts written by another interpreter (a worker process, a saved model: another string-hash seed) are operands like
+    any other: every product and propagation has the outcome it has for the same objects built here.  Concrete-only."""
+    lt = W.lentil
+
+    def ok():
+        import os, pickle, subprocess, sys as _sys
+        import numpy as real
+        from symx import loader
+        root = os.path.abspath(loader.repo_root())
+        if _sys.modules.get('lentil') is not lt:
+            return True                                   # (only the real package can be unpickled into)
+        outs = []
+        for hs in ('4242', '17'):
+            env = dict(os.environ, PYTHONHASHSEED=hs)
+            raw = subprocess.run([_sys.executable, '-c', _CHILD, root], env=env, stdout=subprocess.PIPE, check=True).stdout
+            outs.append(pickle.loads(raw))
+        amp = real.ones((2, 2))
+
+        def local():
+            o = {}
+            for p in ('none', 'pupil', 'image', 'tilt', 'transform'):
+                o['plane:' + p] = lt.Plane(amplitude=amp, ptype=p)
+                if p in ('none', 'pupil', 'image'):
+                    o['wave:' + p] = lt.Wavefront(650e-9, pixelscale=1e-3, focal_length=1.0, ptype=p) * lt.Plane(amplitude=amp, ptype=p)
+            o['class:Pupil'] = lt.Pupil(amplitude=amp, pixelscale=1e-3, focal_length=1.0)
+            o['class:Image'] = lt.Image()
+            o['class:Tilt'] = lt.Tilt(x=1e-6, y=0)
+            return o
+
+        def outcome(fn):
+            try:
+                return str(fn().ptype)
+            except Exception as e:
+                return type(e).__name__
+
+        here = local()
+        for there in outs:
+            for k in here:
+                if not (there[k].ptype == here[k].ptype and hash(there[k].ptype) == hash(here[k].ptype) and {here[k].ptype: 1}.get(there[k].ptype) == 1):
+                    return False
+            for wk in [k for k in here if k.startswith('wave:')]:
+                for pk in [k for k in here if not k.startswith('wave:')]:
+                    want = outcome(lambda: here[wk] * here[pk])
+                    for a, b in ((there[wk], there[pk]), (here[wk], there[pk]), (there[wk], here[pk])):
+                        if outcome(lambda: a * b) != want:
+                            return False
+                want = outcome(lambda: lt.propagate_dft(here[wk], pixelscale=1e-5, shape=(2, 2), oversample=1))
+                if outcome(lambda: lt.propagate_dft(there[wk], pixelscale=1e-5, shape=(2, 2), oversample=1)) != want:
+                    return False
+        return True
+    W.ob_concrete('operands unpickled from interpreters with other hash seeds: equal types hash equal, every product and propagation has the outcome of the locally built objects', ok)
+
+
 HARNESSES = {
+    'other_interpreter': {'configs': cfg_pickled, 'run': run_pickled},
     'one_step': {'configs': cfg_step, 'run': run_step},
     'programs': {'configs': cfg_prog, 'run': run_prog, 'validate_paths': 1},
 }
